@@ -86,7 +86,8 @@ def run(ctx):
                 ok = np.allclose(m[idx], mf2.m, rtol=1e-12)
                 tol = 1e-9
                 if ok and not np.allclose(mf2.dndm, dn[idx], rtol=tol, atol=0, equal_nan=True):
-                    viol("grid-dependence" + ("/SharpK-position-dependent-resolution" if cfg["filter_model"].startswith("SharpK") else ""), f"dndm at a fixed mass changes with (Mmin, Mmax, dlog10m): max rel dev {float(np.nanmax(np.abs(mf2.dndm / dn[idx] - 1))):.3g}", {"config": str(cfg)})
+                    gdev = float(np.nanmax(np.abs(mf2.dndm / dn[idx] - 1)))
+                    viol("grid-dependence" + ("/SharpK-position-dependent-resolution" if (cfg["filter_model"].startswith("SharpK") and gdev < 2e-3) else ""), f"dndm at a fixed mass changes with (Mmin, Mmax, dlog10m): max rel dev {float(np.nanmax(np.abs(mf2.dndm / dn[idx] - 1))):.3g}", {"config": str(cfg)})
             except Exception:
                 pass
         # mass_nonlinear: inside and outside the tabulated range, z = 0 and z > 0
